@@ -7,5 +7,11 @@ META = {"explanation": "bounded functional: one concrete (small) shape per group
         "assumptions": ["orchestration for all shapes and ranks (layer S): shapes, window containment, index ranges of the bit accessors, result header and release of every temporary only", "mzd_pluq replaced by the library's own _mzd_pluq_naive (harness-level -D substitution when compiling solve.c)"]}
 
 
+def _carriers(tier):
+    # the PLE underneath the kernel starts from mzd_first_zero_row: its observer contract
+    from checks import C17, carriers
+    return carriers.pick(C17.obs_groups(tier), "K.mzd_first_zero_row.", prop="C07")
+
+
 def groups(tier, seed):
-    return with_canaries(alg.c07(tier)) + with_canaries([g for g in layer_s.solve_groups(["C07", "C06", "C09", "C11"]) if g.function == "mzd_kernel_left_pluq"])
+    return with_canaries(alg.c07(tier)) + with_canaries([g for g in layer_s.solve_groups(["C07", "C06", "C09", "C11"]) if g.function == "mzd_kernel_left_pluq"]) + _carriers(tier)
